@@ -413,6 +413,8 @@ func (tg *target) cacheOp(t []string) (string, int, []string, []string) {
 		in.curCb = id
 		c.SetCallback(in.mkcb(id))
 		return "-", 0, nil, nil
+	case "defexp":
+		return fmt.Sprintf("d=%d", int64(c.DefaultExpiration())), 0, nil, nil
 	case "tick":
 		// the clock advances while the other threads are in the middle of their calls
 		vshim.Advance(atoi64(t[1]))
@@ -797,6 +799,29 @@ func genProgram(r *rng, kind string, focus string) *program {
 					ops = append(ops, "getexp "+k)
 				} else {
 					ops = append(ops, fmt.Sprintf("setdefexp %d", []int64{-2_000_000_000, 0, -1, 3_600_000_000_000, 50}[r.intn(5)]))
+				}
+			}
+			p.threads[i] = ops
+		}
+	case "knobs":
+		// the two settings are written and read concurrently: SetDefaultExpiration, SetEvictedCallback and
+		// DefaultExpiration are one atomic action each, so the history must be linearizable - in particular a completed
+		// SetDefaultExpiration is not undone by a SetEvictedCallback that overlapped it
+		if !isCache {
+			break
+		}
+		p.dflt = 3_600_000_000_000
+		p.prefill = nil
+		for i := range p.threads {
+			var ops []string
+			for j := 0; j < 1+r.intn(3); j++ {
+				switch (i + r.intn(2)) % 3 {
+				case 0:
+					ops = append(ops, fmt.Sprintf("setdefexp %d", []int64{-2_000_000_000, 7, 50, 3_600_000_000_000, 90}[r.intn(5)]))
+				case 1:
+					ops = append(ops, fmt.Sprintf("setevcb %d", 1+r.intn(2)))
+				default:
+					ops = append(ops, "defexp")
 				}
 			}
 			p.threads[i] = ops
